@@ -599,8 +599,18 @@ def gen_case(rng, cid, big=None):
             ns // 3, max(to, 1), to + 1, L, L + to, rng.randrange(max(to, 1), 400), rng.randrange(max(to, 1), 4000)]
     pool = sorted({p for p in pool if p >= max(1, to) and -(-ns // p) <= 70})
     sizes = rng.sample(pool, min(len(pool), 3))
+    # a trailing chunk shorter than one waveform that still holds a valid spike (remainder in (L - to, L))
+    short_last = None
+    if to >= 2 and rng.random() < 0.45:
+        m = rng.choice([1, 2, 3, 4])
+        size = (ns - rng.randrange(L - to + 1, L)) // m
+        if size >= max(to, 1) and L - to < ns - m * size < L and -(-ns // size) <= 70:
+            sizes = [size] + [z for z in sizes if z != size][:2]
+            short_last = m * size
     clusters = rng.sample([0, 1, 2, 3, 5, 7, 8, 13, 20, 21, 100, 4000], nunits)
     spikes = []
+    if short_last is not None:
+        spikes.append([short_last + rng.choice([0, 0, 1]), clusters[0], rng.randrange(nc)])
     edge = [0, 1, to - 1, to, to + 1, to + 2, hi - 2, hi - 1, hi, hi + 1, ns - 1, ns - 2, ns // 2]
     seams = [k * sz + d for sz in sizes for k in range(1, min(6, -(-ns // sz)) + 1) for d in (-1, 0, 1, -to, to)]
     for u in clusters:
